@@ -830,7 +830,7 @@ struct Digit {
 
                     if (times >= DigitConst::MaxPowerOfFive) {
                         const SizeT32 max_index = (format.Precision < Info_T::MaxCut)
-                                                      ? ((format.Precision / DigitConst::MaxPowerOfTen) + 2U)
+                                                      ? ((format.Precision / DigitConst::MaxPowerOfTen) + 3U)
                                                       : b_int.MaxIndex();
 
                         do {
